@@ -293,4 +293,28 @@ example : (listed (run exSt exMore) 0).map (fun g => (g.id, g.forced)) = [(7, fa
     ((run exSt (exMore.take 3)).stream 0).tracks.map (fun t => ((run exSt (exMore.take 3)).track t).params) = [2] := by
   decide
 
+/-- MPEG-TS: H264 + AAC -/
+def tsCfg : Cfg :=
+  { variant := .mpegts, segmentCount := 3, segmentMinDur := 1000000000, partMinDur := 0, segmentMaxSize := 1000000,
+    tracks := [{ codec := .h264, clockRate := 90000 }, { codec := .aac, clockRate := 48000, sampleRate := 48000 }] }
+def tsSt0 : State := startState tsCfg.withDefaults
+theorem tsStart : start tsCfg = .ok tsSt0 := rfl
+def tsSt : State := run tsSt0 [vop 0 true 1, aop 0, vop 1 false 0]
+
+/-- MPEG-TS audio only -/
+def tsaCfg : Cfg :=
+  { variant := .mpegts, segmentCount := 3, segmentMinDur := 1000000000, partMinDur := 0, segmentMaxSize := 1000000,
+    tracks := [{ codec := .aac, clockRate := 48000, sampleRate := 48000 }] }
+def tsaSt0 : State := startState tsaCfg.withDefaults
+theorem tsaStart : start tsaCfg = .ok tsaSt0 := rfl
+def aop0 (i : Nat) : WriteOp := { aop i with track := 0 }
+
+set_option maxRecDepth 100000 in
+/-- hypotheses of `c02_cut_iff_due_ts_video` (the IDR at 1 s: accepted, H264, succeeds — and it cuts), of
+`c02_ts_first_segment_ra`, and of `c02_cut_iff_due_ts_audio` -/
+example : (tsSt.tcfg 0).codec = .h264 ∧ Accepted tsSt (vop 2 true 0) ∧ (write tsSt (vop 2 true 0)).2 = .ok ∧
+    ((write tsSt (vop 2 true 0)).1.stream 0).nextSegmentID = (tsSt.stream 0).nextSegmentID + 1 ∧
+    Accepted tsSt0 (vop 0 true 1) ∧ (tsSt0.track 0).firstRA = false ∧
+    (tsaSt0.tcfg 0).codec = .aac ∧ tsaSt0.isLeadingTrack 0 = true ∧ (write tsaSt0 (aop0 0)).2 = .ok := by decide
+
 end Hls.Props.C02
